@@ -18,8 +18,38 @@ RULE = ("consistent sequences of 1-3 positions (20% subsequences, forge path onl
         "per channel, and the three paths agree; non-trivial = some delay > 0")
 
 
+def one_sample_pad_case(g):
+    """finding D26: blueprint channels whose delays differ by exactly one sample (both >= 2 samples, inside the quantifier):
+    the channel with the shorter delay needs ONE trailing zero sample, which is appended as a segment of its own and refused
+    by the forger (segments need two samples) -- forge and both output methods raise SegmentDurationError"""
+    r = g.r
+    SR = r.choice([100, 10, 1e3, 1e6])
+    N = r.randint(4, 12)
+    d1 = r.choice([2, 3, 4, 6])
+    ds = r.sample([d1, d1 + 1], 2) + ([d1 + 1] if r.random() < 0.3 else [])
+    chans = r.sample([1, 2, "A", 3], len(ds))
+    ops = [{"op": "sq.new", "id": "s"}, {"op": "sq.setSR", "id": "s", "v": enc(SR)}, {"op": "el.new", "id": "e1"}]
+    for ch in chans:
+        bid = g.fresh("b")
+        ops += [{"op": "bp.new", "id": bid},
+                {"op": "bp.insert", "id": bid, "pos": -1, "fn": "ramp", "args": [enc(0.25), enc(1)], "dur": enc(N / SR), "name": None},
+                {"op": "bp.setSR", "id": bid, "SR": enc(SR)}, {"op": "el.addBP", "id": "e1", "ch": ch, "bp": bid}]
+    ops.append({"op": "sq.addElement", "id": "s", "pos": 1, "el": "e1"})
+    for ch, d in zip(chans, ds):
+        ops += [{"op": "sq.setAmp", "id": "s", "ch": ch, "v": 100}, {"op": "sq.setOff", "id": "s", "ch": ch, "v": 0},
+                {"op": "sq.setDelay", "id": "s", "ch": ch, "v": enc(d / SR)}]
+    ops += [{"op": "sq.forge", "id": "s", "delays": True, "filters": False, "time": False, "_d": True},
+            {"op": "sq.forge", "id": "s", "delays": False, "filters": False, "time": False, "_u": True},
+            {"op": "sq.awg", "id": "s"}]
+    ops[0]["_delays"] = {str(ch): d for ch, d in zip(chans, ds)}
+    ops[0]["_factor"] = 1
+    return ops
+
+
 def case(g, tier, ci):
     r = g.r
+    if ci % 60 == 13:
+        return one_sample_pad_case(g)
     sg = SeqGen(g)
     SR = r.choice([100, 100, 10, 1e3, 2.5, 1e6, 1e9])
     seqx = r.random() < 0.12
@@ -83,6 +113,16 @@ def post_check(ops, ri, rm):
     D = {ch: int(round(num(v) * SR)) for ch, v in actual.items()}
     fd = next((r for o, r in zip(ops, ri) if o.get("_d")), None)
     fu = next((r for o, r in zip(ops, ri) if o.get("_u")), None)
+    if fd is not None and fu is not None and "err" in fd and "ok" in fu and fd["err"] == "SegmentDurationError":
+        # finding D26 (KNOWN_FINDINGS.txt): all delays are 0 or >= 2 whole samples, the undelayed sequence forges, and some
+        # blueprint channel needs exactly one padding sample behind (or in front)
+        bp_chans = {str(o["ch"]) for o in ops if o["op"] == "el.addBP"}
+        present = {str(ch) for pos in fu["ok"]["forged"] for p2 in fu["ok"]["forged"][pos]["content"]
+                   for ch in fu["ok"]["forged"][pos]["content"][p2]["data"]}
+        Mx = max([D.get(ch, 0) for ch in present] + [0])
+        if all(d == 0 or d >= 2 for d in D.values()) and any(Mx - D.get(ch, 0) == 1 for ch in present & bp_chans):
+            return (f"C10-D26: delays {sorted(D.items())} (whole samples, each 0 or >= 2): forge(apply_delays=True) raises "
+                    f"SegmentDurationError because a blueprint channel needs exactly one trailing zero sample; the undelayed sequence forges")
     if fd is None or fu is None or "err" in fd or "err" in fu:
         return None
     M = max(list(D.values()) + [0])
